@@ -1,6 +1,7 @@
 import NomtModel.Store.WalkerSimTop
 import NomtModel.Store.WalkerSimRun
 import NomtModel.Store.WalkerGSimRun
+import NomtModel.Store.WalkerTreeLogInv
 /-!
 # The walk without parent page on the mirror: no panic, the specified root, every output page right
 -/
@@ -16,26 +17,23 @@ theorem runInv_run (hs : H.Sound) {D : Path → Prop} {pp : Option PageId} {root
     ∀ (todo done : List (Step VH)) (w : Walker Node) (a : TW Node), ScriptOK S S' (done ++ todo) →
       PSOK ps (done ++ todo) → PathsIn D (done ++ todo) → InScope pp (done ++ todo) →
       RunInv H ps D pp root S S' done todo w a →
-      (∃ w', w.runM H ps todo = .ok w' ∧
-        RunInv H ps D pp root S S' (done ++ todo) [] w' (a.run H (cfgOf H ps pp) todo)) ∨
-      w.runM H ps todo = .panic GUARD := by
+      ∀ (Lfin : List (PageId × Store Node)), (Lfin.map (·.1)).Nodup → (a.run H (cfgOf H ps pp) todo).log <+: Lfin →
+      ∃ w', w.runM H ps todo = .ok w' ∧
+        RunInv H ps D pp root S S' (done ++ todo) [] w' (a.run H (cfgOf H ps pp) todo) := by
   intro todo
   induction todo with
-  | nil => intro done w a _ _ _ _ h; exact Or.inl ⟨w, rfl, by simpa [TW.run] using h⟩
+  | nil => intro done w a _ _ _ _ h _ _ _; exact ⟨w, rfl, by simpa [TW.run] using h⟩
   | cons s todo ih =>
-    intro done w a hso hps hDp hscp h
-    rcases runInv_step H ps hs hS hS' hso hps hrep hDp hD0 hscp h with ⟨w1, hw1, h1⟩ | hp
-    case inr =>
-      right
-      simp only [Walker.runM]; rw [hp]
+    intro done w a hso hps hDp hscp h Lfin hnd hpre
+    have hpre1 : (a.step H (cfgOf H ps pp) s).log <+: Lfin :=
+      List.IsPrefix.trans (tw_run_log_prefix H (cfgOf H ps pp) todo _) (by simpa [TW.run] using hpre)
+    obtain ⟨w1, hw1, h1⟩ := runInv_step H ps hs hS hS' hso hps hrep hDp hD0 hscp h Lfin hnd hpre1
     have e : (done ++ [s]) ++ todo = done ++ s :: todo := by simp
-    rcases ih (done ++ [s]) w1 _ (by rw [e]; exact hso) (by rw [e]; exact hps) (by rw [e]; exact hDp)
-      (by rw [e]; exact hscp) h1 with ⟨w2, hw2, h2⟩ | hp2
-    · refine Or.inl ⟨w2, ?_, ?_⟩
-      · simp only [Walker.runM]; rw [hw1]; exact hw2
-      · simpa [TW.run] using h2
-    · right
-      simp only [Walker.runM]; rw [hw1]; exact hp2
+    obtain ⟨w2, hw2, h2⟩ := ih (done ++ [s]) w1 _ (by rw [e]; exact hso) (by rw [e]; exact hps) (by rw [e]; exact hDp)
+      (by rw [e]; exact hscp) h1 Lfin hnd (by simpa [TW.run] using hpre)
+    refine ⟨w2, ?_, ?_⟩
+    · simp only [Walker.runM]; rw [hw1]; exact hw2
+    · simpa [TW.run] using h2
 
 theorem runInv_start (D : Path → Prop) (pp : Option PageId) (root : Node) (S S' : List (Key × VH))
     (steps : List (Step VH)) (inhibit : Bool) :
@@ -48,7 +46,7 @@ theorem runInv_start (D : Path → Prop) (pp : Option PageId) (root : Node) (S S
     · intro hr; cases hr
     · intro hr; cases hr
     · intro hr; cases hr
-  refine ⟨Pos.wf_new, rfl, ?_, ?_, ?_, trivial, ?_, ?_, hrecon, rfl, ?_, rfl, ?_⟩
+  refine ⟨Pos.wf_new, rfl, ?_, ?_, ?_, trivial, ?_, ?_, hrecon, rfl, ?_, rfl, ?_, ?_⟩
   · simp [Walker.startP, Walker.new, Walker.newInner, flatStore]
   · simp [Walker.startP, Walker.new, Walker.newInner]
   · intro sp rest e; cases e
@@ -56,24 +54,34 @@ theorem runInv_start (D : Path → Prop) (pp : Option PageId) (root : Node) (S S
   · intro sp hsp; cases hsp
   · intro o ho; cases ho
   · intro sp hsp; cases hsp
+  · intro sp hsp; cases hsp
+
+/-- **no page is left twice** along a whole walk: the ids of the final log of the tree walker are pairwise distinct -/
+theorem final_log_nodup (hs : H.Sound) {D : Path → Prop} (pp : Option PageId) {root : Node} {S S' : List (Key × VH)}
+    (hS : KeysOK S) (hS' : KeysOK S') {steps : List (Step VH)} (hso : ScriptOK S S' steps)
+    (hrep : Rep0 H D S (flatStore H ps root)) (hDp : PathsIn D steps) :
+    (((({ pos := [], store := flatStore H ps root, log := [], cpr := [] } : TW Node).run H (cfgOf H ps pp) steps).conclude H
+      (cfgOf H ps pp)).log.map (·.1)).Nodup := by
+  have h1 := tw_run_idle_logPos H D hs hS hS' hrep (cfgOf H ps pp) steps []
+    ({ pos := [], store := flatStore H ps root, log := [], cpr := [] } : TW Node) (by simpa using hso) (by simpa using hDp)
+    ⟨by simp, rfl, rfl, rfl⟩ (by intro s hs'; cases hs')
+  exact (logPos_compactUp H (cfgOf H ps pp) _ none h1).1
 
 /-- `conclude` after a script -/
 theorem conclude_spec (hs : H.Sound) {D : Path → Prop} {root : Node} {S S' : List (Key × VH)} (hS : KeysOK S)
     (hS' : KeysOK S') {all : List (Step VH)} (hso : ScriptOK S S' all)
     (hrep : Rep0 H D S (flatStore H ps root)) (hD0 : D []) {w : Walker Node} {a : TW Node}
-    (h : RunInv H ps D none root S S' all [] w a) :
-    (∃ pages, w.conclude H = .ok (.root (specNode H S' []) pages) ∧
+    (h : RunInv H ps D none root S S' all [] w a)
+    (hnd : ((a.conclude H (cfgOf H ps none)).log.map (·.1)).Nodup) :
+    ∃ pages, w.conclude H = .ok (.root (specNode H S' []) pages) ∧
       ∀ o ∈ pages, ∃ P pg d b, o = .updated P pg d b ∧ pg.nodes.length = 126 ∧
         (∀ q, q ≠ [] → q.length ≤ 256 → specPage q = P → D q → Mean S' q →
           pg.nodes.getD (specIndex q) H.term = specNode H S' q) ∧
-        ∃ base, BaseOf ps P base ∧ DiffNames H pg.nodes base d) ∨
-    w.conclude H = .panic GUARD := by
-  rcases sim_compactUp H ps h.sim none (by intro t ht; cases ht) []
-    (fun hr => absurd hr (by rw [h.norec]; simp)) with ⟨w1, hw1, hs1, hsame1⟩ | ⟨_, hp⟩
-  case inr =>
-    right
-    unfold Walker.conclude
-    rw [if_neg (by rw [h.norec]; simp), hp]
+        ∃ base, BaseOf ps P base ∧ DiffNames H pg.nodes base d := by
+  obtain ⟨w1, hw1, hs1, hsame1⟩ := sim_compactUp H ps h.sim none (by intro t ht; cases ht)
+    (a.conclude H (cfgOf H ps none)).log hnd
+    ⟨fun hr => absurd hr (by rw [h.norec]; simp), by
+      rw [h.par]; simp only [Option.map_none]; exact List.prefix_refl _⟩
   have hnr1 : w1.reconstruction = false := hsame1.2.2.2.2.trans h.norec
   rw [h.par] at hs1
   simp only [Option.map_none] at hs1
@@ -109,7 +117,7 @@ theorem conclude_spec (hs : H.Sound) {D : Path → Prop} {root : Node} {S S' : L
       have := (c3 rfl).1
       rw [hp] at this
       exact ⟨this, c4⟩
-  refine Or.inl ⟨w1.outputPages, ?_, ?_⟩
+  refine ⟨w1.outputPages, ?_, ?_⟩
   · have : w1.root = specNode H S' [] := by
       rw [hs1.root]; exact htw.1
     rw [this]
@@ -124,20 +132,18 @@ theorem conclude_spec (hs : H.Sound) {D : Path → Prop} {root : Node} {S S' : L
 theorem conclude_children_spec (hs : H.Sound) {D : Path → Prop} {P0 : PageId} {root : Node} {S S' : List (Key × VH)}
     (hS : KeysOK S) (hS' : KeysOK S') {all : List (Step VH)} (hso : ScriptOK S S' all)
     (hrep : Rep0 H D S (flatStore H ps root)) {w : Walker Node} {a : TW Node}
-    (h : RunInv H ps D (some P0) root S S' all [] w a) :
-    (∃ roots pages, w.conclude H = .ok (.childPageRoots roots pages) ∧
+    (h : RunInv H ps D (some P0) root S S' all [] w a)
+    (hnd : ((a.conclude H (cfgOf H ps (some P0))).log.map (·.1)).Nodup) :
+    ∃ roots pages, w.conclude H = .ok (.childPageRoots roots pages) ∧
       (∀ e ∈ roots, e.2 = specNode H S' e.1.path ∧ e.1.path.length = 6 * (P0.length + 1)) ∧
       ∀ o ∈ pages, ∃ P pg d b, o = .updated P pg d b ∧ pg.nodes.length = 126 ∧
         (∀ q, q ≠ [] → q.length ≤ 256 → specPage q = P → D q → Mean S' q →
           pg.nodes.getD (specIndex q) H.term = specNode H S' q) ∧
-        ∃ base, BaseOf ps P base ∧ DiffNames H pg.nodes base d) ∨
-    w.conclude H = .panic GUARD := by
-  rcases sim_compactUp H ps h.sim none (by intro t ht; cases ht) []
-    (fun hr => absurd hr (by rw [h.norec]; simp)) with ⟨w1, hw1, hs1, hsame1⟩ | ⟨_, hp⟩
-  case inr =>
-    right
-    unfold Walker.conclude
-    rw [if_neg (by rw [h.norec]; simp), hp]
+        ∃ base, BaseOf ps P base ∧ DiffNames H pg.nodes base d := by
+  obtain ⟨w1, hw1, hs1, hsame1⟩ := sim_compactUp H ps h.sim none (by intro t ht; cases ht)
+    (a.conclude H (cfgOf H ps (some P0))).log hnd
+    ⟨fun hr => absurd hr (by rw [h.norec]; simp), by
+      rw [h.par]; simp only [Option.map_none]; exact List.prefix_refl _⟩
   have hnr1 : w1.reconstruction = false := hsame1.2.2.2.2.trans h.norec
   rw [h.par] at hs1
   simp only [Option.map_none] at hs1
@@ -165,7 +171,7 @@ theorem conclude_children_spec (hs : H.Sound) {D : Path → Prop} {P0 : PageId} 
       · intro e he; rw [hidle.log] at he; cases he
     · obtain ⟨_, _, _, c4, c5, _⟩ := tw_conclude_spec H D hs hS' hso hrep (cfgOf H ps (some P0)) a hinv _ rfl
       exact ⟨c5, c4⟩
-  refine Or.inl ⟨w1.childPageRoots, w1.outputPages, rfl, ?_, ?_⟩
+  refine ⟨w1.childPageRoots, w1.outputPages, rfl, ?_, ?_⟩
   · intro e he
     have hmem : (e.1.path, e.2) ∈ (a.conclude H (cfgOf H ps (some P0))).cpr := by
       have hc := hs1.cpr
